@@ -36,10 +36,12 @@ MANIFEST = dict(
           "names and the wildcards a*b / *b; transcription of virtualtablenames file vs memory map, "
           "aliasToIndexNames, open/unrotated/rotated segments keyed by table name with OrgId filters, deleteIndex by name. TLC: "
           "NoLeak, ExactByName, Exact (patched transcription), NoDeleteExact (this tree's transcription), 2 orgs x 4 indexes, <= 4 "
-          "operations (thorough: 2 orgs <= 5, 3 orgs <= 4). Replay: three generated pools - all canonical histories of exactly 4 "
+          "operations (thorough: 2 orgs <= 5, 3 orgs <= 4). Replay: four generated pools - all canonical histories of exactly 4 "
           "operations over 2 orgs x {a, ab, abc} (13 410), simulated histories of 6 operations over 3 orgs x {a, ab, abc, b}, and all "
           "canonical histories of 5 operations in which ingest+rotate is one step (segment-rich: up to 4 rotated segments of one "
-          "(org, index) before it is deleted; 20 774) - from which a seeded stratified sample (deviating / most-at-stake deletes / "
+          "(org, index) before it is deleted; 20 774), and all canonical histories of 4 operations over organisation ids and index names "
+          "whose naive concatenations collide (orgs 2 and 12 x indexes a and a1: 'a'+'12' = 'a1'+'2'; 2 512; the simulated pool uses orgs "
+          "0, 2, 12 and adds a1 as well) - from which a seeded stratified sample (deviating / most-at-stake deletes / "
           "feature classes) is executed on the real engine (ES bulk with org id, alias and delete-index handlers with a synthetic "
           "RequestCtx, flush, forced rotation); after every operation every (org, expression) is searched and its columns listed (one "
           "column per event, so a re-created index must not inherit columns); `stats count by`, `stats count`, listIndices and a "
@@ -56,7 +58,7 @@ MANIFEST = dict(
 
 WORKERS = int(os.environ.get("VERIF_WORKERS", "0")) or min(vlib.NCPU, 8)
 T0 = 1_700_000_000_000
-NAMES = ("a", "ab", "abc", "b")
+NAMES = ("a", "a1", "ab", "abc", "b")
 
 
 def is_del(opd, org=None, idx=None):
@@ -184,7 +186,7 @@ class Replayer:
         r = self.dr.ok("ten_columns", org=o, index=e, start=T0 - 1000, end=T0 + 10_000_000)
         out = set()
         for c in r.get("body") or []:
-            m = re.match(r"^c_o(\d+)_([a-z]+)_e(\d+)$", str(c))
+            m = re.match(r"^c_o(\d+)_([a-z0-9]+)_e(\d+)$", str(c))
             if m:
                 out.add((int(m.group(1)), m.group(2), int(m.group(3))))
         return out
@@ -462,10 +464,23 @@ def deviating(h):
     return False
 
 
+def colliding(h):
+    """do two (organisation, index) pairs whose naive concatenations coincide ("a"+"12" = "a1"+"2", either order) hold live
+    events at the same time somewhere in the history"""
+    for st in h["steps"]:
+        pairs = [(o, i) for o, by in st["ev"].items() for i, ids in by.items() if ids]
+        for x in range(len(pairs)):
+            for y in range(x + 1, len(pairs)):
+                (o1, i1), (o2, i2) = pairs[x], pairs[y]
+                if i1 + o1 == i2 + o2 or o1 + i1 == o2 + i2:
+                    return True
+    return False
+
+
 def features(h):
     ops = [s["op"]["op"] for s in h["steps"]]
     coexist = any(v.get(i) and v.get(j) for st in h["steps"] for v in st["vis"].values() for i in v for j in v if j != i and j.startswith(i))
-    return ("delete" in ops, "rotate" in ops or "ingest_rotate" in ops, any(o.startswith("alias") for o in ops), coexist)
+    return ("delete" in ops, "rotate" in ops or "ingest_rotate" in ops, any(o.startswith("alias") for o in ops), coexist, colliding(h))
 
 
 def run(chk):
@@ -500,13 +515,17 @@ def run(chk):
         g2 = write_cfg(sc, "Gen_Tenancy_sim_cur.cfg", "Gen_Tenancy_sim.cfg", flags)
         sim, r2 = vlib.tlc_generate("Gen_Tenancy", "Gen_Tenancy_sim_cur.cfg", timeout=900, simulate="num=%d" % (250 if quick else 1500), depth=7,
                                     seed=chk.seed, extra_files=[g2])
-        chk.add_tlc("Gen_Tenancy_sim", r2, "simulated histories of 6 operations, 3 orgs x {a, ab, abc, b} x alias al, deletes over names, a*b, *b")
+        chk.add_tlc("Gen_Tenancy_sim", r2, "simulated histories of 6 operations, orgs {0, 2, 12} x {a, a1, ab, abc, b} x alias al, deletes over names, a*b, *b")
+        g4 = write_cfg(sc, "Gen_Tenancy_coll_cur.cfg", "Gen_Tenancy_coll.cfg", flags)
+        coll, r4 = vlib.tlc_generate("Gen_Tenancy", "Gen_Tenancy_coll_cur.cfg", timeout=900, extra_files=[g4])
+        chk.add_tlc("Gen_Tenancy_coll", r4, "all canonical histories of 4 operations over organisation ids and index names whose concatenations collide: "
+                                            "orgs {2, 12} x {a, a1}")
         g3 = write_cfg(sc, "Gen_Tenancy_segs_cur.cfg", "Gen_Tenancy_segs.cfg", flags)
         segs, r3 = vlib.tlc_generate("Gen_Tenancy", "Gen_Tenancy_segs_cur.cfg", timeout=900, extra_files=[g3])
         chk.add_tlc("Gen_Tenancy_segs", r3, "all canonical histories of 5 operations with ingest+rotate as one step (segment-rich), 2 orgs x {ab}")
     finally:
         vlib.rmtree(sc)
-    if not small or not sim or not segs:
+    if not small or not sim or not segs or not coll:
         raise vlib.Infra("no histories generated")
     sim = vlib.dedup(sim, key=lambda h: json.dumps([s["op"] for s in h["steps"]]))
     rnd = random.Random(chk.seed)
@@ -519,9 +538,11 @@ def run(chk):
         - 3 points per additional rotated segment the deleted (organisation, index) owns (lists of several segments are where
           removal loops go wrong);
         - 1 point for a wildcard in the deleted expression;
+        - 4 points (also without any delete) when two (organisation, index) pairs whose naive concatenations coincide are live
+          at the same time;
         - the continuation: 2 points per later ingest / rotation of another organisation's index of a deleted name, more when
           that index had a rotated segment before the delete, rotates again and is written to afterwards."""
-        best = 0
+        best = 4 if colliding(h) else 0        # keys built by concatenating name and organisation id would coincide
         rotated = False
         for k, st in enumerate(h["steps"]):
             op = st["op"]
@@ -584,8 +605,8 @@ def run(chk):
             i += 1
         return sel
 
-    n_small, n_sim, n_segs = (60, 45, 55) if quick else (800, 700, 500)
-    sel = pick(small, n_small) + pick(sim, n_sim) + pick(segs, n_segs)
+    n_small, n_sim, n_segs, n_coll = (50, 40, 45, 25) if quick else (700, 600, 450, 250)
+    sel = pick(small, n_small) + pick(sim, n_sim) + pick(segs, n_segs) + pick(coll, n_coll)
     retried = []
 
     def history_with_retry(h):
